@@ -12,3 +12,4 @@ for p in tools/mutants/*${PAT}*.patch; do
   v=$(echo "$out" | grep -m1 '^VIOLATION')
   echo "$name: rc=$rc ${v:-no violation} | $(echo "$out" | tail -1)"
 done
+tools/build.sh   # back to the unmodified tree
